@@ -25,6 +25,9 @@ def explore(res, scale=1, seed=None):
     # the vectored path (Block.WriteBlock + Flush, what the client uses for uncompressed INSERTs) must give the bytes of
     # EncodeBlock also for string-backed columns with values of 4 KiB .. 1 MiB followed by rows of other lengths (C14's family)
     colfam.run_direct(res, "c14long", 48 * scale, seed, builds=("default",))
+    # one AutoResult target reused for blocks whose types differ only in non-conflicting parameters (Decimal scale and
+    # spelling, integer vs the enum over it, zones, DateTime64 precision): the type reported is the last block's (direct oracle)
+    colfam.run_direct(res, "c01reuse", 160 * scale, seed, builds=("default",))
     # LowCardinality over floats (NaN never equals itself as a map key, +0 = -0): several encodes of one column object,
     # read back with the library's decoder (direct oracle; the column model has no floats)
     colfam.run_direct(res, "c01lcf", 150 * scale, seed, builds=("default",))
